@@ -494,6 +494,17 @@ func c05Conn(c *fw.Ctx, cas c05Case) {
 			if cas.Small && i%2 == 0 {
 				buf = buf[:1]
 			}
+			if rerr != nil {
+				// the insisting caller is net/http: it sets deadlines between its reads (a new one, none, one in the past)
+				switch afterN % 4 {
+				case 1:
+					conn.SetReadDeadline(time.Now().Add(time.Hour))
+				case 2:
+					conn.SetDeadline(time.Time{})
+				case 3:
+					conn.SetReadDeadline(time.Unix(1, 0))
+				}
+			}
 			n, e := read(buf)
 			if rerr != nil {
 				afterErr += n // the caller insists after an error: nothing more may be released
@@ -792,7 +803,7 @@ func init() {
 	fw.Register(&fw.Check{
 		ID:     "C05",
 		Level:  "fault_enumeration",
-		Rule:   "for 20 stream shapes (0–4 frames, message lengths around 1, 1023..1025, k·1024; frame counters starting at 0, 1, 300 and — preset through reflection — 2^32−1, 2^32, 2^32+5, 2^40, 2^63−1, 2^64−4) × both receiving directions × secrets: every single-bit flip of the whole ciphertext stream, truncation at every byte offset, every frame deletion, duplication at every position, every non-identity permutation, reflection of the receiver's own frames, same-index frames of a session with another secret, a frame the same sender sealed 2^32 counters earlier, forged frames (empty with an arbitrary tag — replacing a frame or inserted anywhere —, or arbitrary bytes of the original length; the latter also followed by frames the adversary sealed under a key everybody knows — all zero, or derived from the all-zero secret — with the counter the receiver expects next), byte insertion/removal at frame edges; thorough adds all ordered pairs of faults from a reduced menu on the small shapes. Sender = reference framing, receiver = hc's real session (also while the receiving session encrypts outgoing messages between the reads that deliver the stream); for streams under 2200 bytes the same faults are also fed one level up through a real hap.Connection (released bytes, error, nothing released to a caller that keeps reading after the error; through Read — with 4096-byte reads and with net/http's alternation of 1-byte and 4096-byte reads — and through the exported DecryptedRead); frame-level faults also with a caller that keeps the readers Decrypt returns and reads them after the last call. distinct_nontrivial = distinct (fault kinds, error reported?) classes among faults that changed at least one byte Frame-level faults are also run with an adversary connection of the same accessory next to the attacked one, from the same host and another port, for IPv4, IPv6 and link-local IPv6 (zone) peer addresses: opened after the attacked connection got its keys, or receiving the diverted original bytes while the altered stream arrives; an unaltered stream next to such a neighbour is delivered completely. Plus, in a subprocess built with a scheduling point before EVERY statement of hc's packages (textual insertion through go build -overlay): every interleaving with at most 1 (thorough 2) preemptions of pairs of operations on disjoint objects — and, where the property is about served requests, of pairs of handlers on two verified connections of one accessory touching different characteristics — each side must observe exactly what it observes when the two run one after the other (module-level mutable state is what makes them differ).",
+		Rule:   "for 20 stream shapes (0–4 frames, message lengths around 1, 1023..1025, k·1024; frame counters starting at 0, 1, 300 and — preset through reflection — 2^32−1, 2^32, 2^32+5, 2^40, 2^63−1, 2^64−4) × both receiving directions × secrets: every single-bit flip of the whole ciphertext stream, truncation at every byte offset, every frame deletion, duplication at every position, every non-identity permutation, reflection of the receiver's own frames, same-index frames of a session with another secret, a frame the same sender sealed 2^32 counters earlier, forged frames (empty with an arbitrary tag — replacing a frame or inserted anywhere —, or arbitrary bytes of the original length; the latter also followed by frames the adversary sealed under a key everybody knows — all zero, or derived from the all-zero secret — with the counter the receiver expects next), byte insertion/removal at frame edges; thorough adds all ordered pairs of faults from a reduced menu on the small shapes. Sender = reference framing, receiver = hc's real session (also while the receiving session encrypts outgoing messages between the reads that deliver the stream); for streams under 2200 bytes the same faults are also fed one level up through a real hap.Connection (released bytes, error, nothing released to a caller that keeps reading after the error and sets read deadlines in between, as net/http does; through Read — with 4096-byte reads and with net/http's alternation of 1-byte and 4096-byte reads — and through the exported DecryptedRead); frame-level faults also with a caller that keeps the readers Decrypt returns and reads them after the last call. distinct_nontrivial = distinct (fault kinds, error reported?) classes among faults that changed at least one byte Frame-level faults are also run with an adversary connection of the same accessory next to the attacked one, from the same host and another port, for IPv4, IPv6 and link-local IPv6 (zone) peer addresses: opened after the attacked connection got its keys, or receiving the diverted original bytes while the altered stream arrives; an unaltered stream next to such a neighbour is delivered completely. Plus, in a subprocess built with a scheduling point before EVERY statement of hc's packages (textual insertion through go build -overlay): every interleaving with at most 1 (thorough 2) preemptions of pairs of operations on disjoint objects — and, where the property is about served requests, of pairs of handlers on two verified connections of one accessory touching different characteristics — each side must observe exactly what it observes when the two run one after the other (module-level mutable state is what makes them differ).",
 		Run:    c05Run,
 		Budget: func(string) time.Duration { return 25 * time.Minute },
 		Replay: func(c *fw.Ctx, raw json.RawMessage) {
